@@ -110,7 +110,7 @@ pub fn any_line() -> impl Strategy<Value = GenLine> {
     let c09 = crate::c09::case_strategy().prop_map(|c| GenLine { prelude: vec![], line: crate::c09::case_line(&c), lang: c.lang.clone(), tz: c.tz.clone(), src: "C09".into() });
     let c10 = crate::c10::case_strategy().prop_map(|c| GenLine { prelude: vec![], line: crate::c10::case_line(&c), lang: c.lang.clone(), tz: None, src: "C10".into() });
     let c11 = crate::c11::case_strategy().prop_map(|c| GenLine { prelude: vec![], line: crate::c11::case_line(&c), lang: "en".into(), tz: c.default_tz.as_ref().map(|z| z.text()), src: "C11".into() });
-    let c12 = crate::c12::shape_strategy().prop_map(|s| GenLine::simple(crate::c12::case_line(&crate::c12::Case { shape: s, seps: 0, glue: 0 }), "C12"));
+    let c12 = crate::c12::shape_strategy().prop_map(|s| GenLine::simple(crate::c12::case_line(&crate::c12::Case { shape: s, seps: 0, glue: 0, via: 0 }), "C12"));
     let c13 = crate::c13::case_strategy().prop_map(|c| GenLine::simple(crate::c13::case_line(&c), "C13"));
     let c14 = crate::c14::case_strategy().prop_map(|c| {
         let mut ls = crate::c14::case_lines(&c);
